@@ -82,6 +82,7 @@ type Engine struct {
 	chunkBase int
 	chunkRealBase int
 	FeasStats map[string]int
+	ReusedArrays int
 	models    []*cachedModel
 }
 
@@ -533,9 +534,9 @@ func (e *Engine) constValue(c *ssa.Const) Value {
 			return BV(w, c.Uint64())
 		}
 	case *types.TypeParam:
-		return Poison{"const of type param"}
+		return Poison{why: "const of type param"}
 	}
-	return Poison{"const " + c.String()}
+	return Poison{why: "const " + c.String()}
 }
 
 func (f *Frame) get(v ssa.Value) Value {
@@ -552,7 +553,7 @@ func (f *Frame) get(v ssa.Value) Value {
 	if val, ok := f.env[v]; ok {
 		return val
 	}
-	return Poison{"undefined ssa value " + v.Name() + " in " + f.fn.String()}
+	return Poison{"undefined ssa value " + v.Name() + " in " + f.fn.String(), true}
 }
 
 func (e *Engine) global(g *ssa.Global) *Cell {
@@ -654,7 +655,7 @@ func (e *Engine) call(fn *ssa.Function, args []Value, g *Term, pos token.Pos) Va
 		if i < len(args) {
 			fr.env[p] = args[i]
 		} else {
-			fr.env[p] = Poison{"missing arg"}
+			fr.env[p] = Poison{why: "missing arg"}
 		}
 	}
 	if _, ok := e.FnCount[name]; !ok {
@@ -673,6 +674,9 @@ func (e *Engine) call(fn *ssa.Function, args []Value, g *Term, pos token.Pos) Va
 	}
 	for i := len(fr.rets) - 1; i >= 0; i-- {
 		r := fr.rets[i]
+		if e.trace && os.Getenv("GOSMT_TRACEFN") == fn.Name() {
+			e.logf("RET %s #%d g=%s v=%v", fn.Name(), i, r.g.render(3), r.v)
+		}
 		if res == nil {
 			res = r.v
 		} else {
@@ -680,9 +684,25 @@ func (e *Engine) call(fn *ssa.Function, args []Value, g *Term, pos token.Pos) Va
 		}
 	}
 	if res == nil {
-		return poisonResult(fn.Signature, "no return from "+name)
+		return dcResult(fn.Signature, "no return from "+name)
 	}
 	return res
+}
+
+// dcResult: don't-care poison (every path of the callee ended in a panic whose VC has been raised).
+func dcResult(sig *types.Signature, why string) Value {
+	n := sig.Results().Len()
+	if n == 0 {
+		return nil
+	}
+	if n == 1 {
+		return Poison{why, true}
+	}
+	v := make([]Value, n)
+	for i := range v {
+		v[i] = Poison{why, true}
+	}
+	return TupleV{v}
 }
 
 func poisonResult(sig *types.Signature, why string) Value {
@@ -691,11 +711,11 @@ func poisonResult(sig *types.Signature, why string) Value {
 		return nil
 	}
 	if n == 1 {
-		return Poison{why}
+		return Poison{why: why}
 	}
 	v := make([]Value, n)
 	for i := range v {
-		v[i] = Poison{why}
+		v[i] = Poison{why: why}
 	}
 	return TupleV{v}
 }
@@ -792,7 +812,7 @@ func (e *Engine) callClosure(fn *ssa.Function, binds []Value, args []Value, g *T
 		}
 	}
 	if res == nil {
-		return poisonResult(fn.Signature, "no return from "+name)
+		return dcResult(fn.Signature, "no return from "+name)
 	}
 	return res
 }
@@ -879,6 +899,10 @@ func (f *Frame) runLoop(L *LoopInfo) {
 		}
 		if hg := f.guard[h]; hg != nil && bg == hg {
 			// the loop condition added nothing to the guard under which this iteration ran: no query needed
+			if bg == f.callG && it < 100000 {
+				// concrete trip count (the loop continues whenever the function runs at all): no unwinding bound applies
+				continue
+			}
 			if it+1 >= unwind {
 				e.vc("unwind", fmt.Sprintf("loop in %s (bound %d)", fn.String(), unwind), L.header.Instrs[0].Pos(), bg)
 				break
